@@ -28,7 +28,7 @@ struct Res
 std::vector<Res> run_contained(uint64_t n, const std::function<Res(uint64_t)> & eval)
 {
   std::vector<Res> out(n);
-  if (mc::replaying()) return out;  // a replay executes the recorded case directly (and reproduces the crash)
+  if (mc::replaying()) return out;  // a replay executes only the recorded case (eval_contained)
   constexpr int W = 16;
   struct Slot
   {
@@ -74,6 +74,29 @@ std::vector<Res> run_contained(uint64_t n, const std::function<Res(uint64_t)> & 
   for (uint64_t i = 0; i < n; ++i) out[i] = res[i];
   munmap(slots, sizeof(Slot) * W);
   munmap(res, sizeof(Res) * n);
+  return out;
+}
+
+/// single case, contained (replay mode: runs in the main thread, so forking is safe)
+Res eval_contained(const std::function<Res(uint64_t)> & eval, uint64_t idx)
+{
+  auto * res = (Res *)mmap(nullptr, sizeof(Res), PROT_READ | PROT_WRITE, MAP_SHARED | MAP_ANONYMOUS, -1, 0);
+  if (res == MAP_FAILED) mc::harness_error("C14 bspline: mmap failed");
+  *res = Res{};
+  fflush(stdout);
+  fflush(stderr);
+  pid_t p = fork();
+  if (p < 0) mc::harness_error("C14 bspline: fork failed");
+  if (p == 0) {
+    Res r    = eval(idx);
+    r.status = 1;
+    *res     = r;
+    _exit(0);
+  }
+  int st = 0;
+  waitpid(p, &st, 0);
+  Res out = *res;
+  munmap(res, sizeof(Res));
   return out;
 }
 
@@ -182,7 +205,7 @@ void run(const std::string & gname)
     c.param("knot_dt", in.kd);
     c.param("span_over_dt", span / in.kd);
     c.param("q_frac", std::fabs(span / in.kd - std::round(span / in.kd)));  // distance of (t_last-t_first)/dt to an integer
-    const Res r = mc::replaying() ? eval(c.idx) : table[c.idx];
+    const Res r = mc::replaying() ? eval_contained(eval, c.idx) : table[c.idx];
     // an index whose call killed its worker process is a violation
     c.require("no crash inside fit_bspline (eigen_assert/signal)", r.status == 1);
     if (r.status != 1) {
